@@ -35,6 +35,18 @@ def normalize_types(f):
     return normalize_helper
 
 
+def _div_by_zero(dividend: float, zero: float) -> float:
+    """
+    IEEE 754 result of dividend / zero, where zero is +0.0 or -0.0 (Python raises ZeroDivisionError instead):
+    0/0 and NaN/0 are NaN, everything else is an infinity whose sign is the product of the operands' signs.
+    """
+    if dividend == 0.0 or math.isnan(dividend):
+        return float("nan")
+    if math.copysign(1.0, dividend) * math.copysign(1.0, zero) < 0:
+        return float("-inf")
+    return float("inf")
+
+
 class FPV:
     """A concrete floating point value. Used in the concrete backend for
     calculations.  Any use outside of claripy should use `claripy.FPV`
@@ -96,9 +108,7 @@ class FPV:
         try:
             return FPV(self.value / o.value, self.sort)
         except ZeroDivisionError:
-            if str(self.value * o.value)[0] == "-":
-                return FPV(float("-inf"), self.sort)
-            return FPV(float("inf"), self.sort)
+            return FPV(_div_by_zero(self.value, o.value), self.sort)
 
     def __floordiv__(self, other):  # decline to involve integers in this floating point process
         return self.__truediv__(other)
@@ -133,9 +143,7 @@ class FPV:
         try:
             return FPV(o.value / self.value, self.sort)
         except ZeroDivisionError:
-            if str(o.value * self.value)[0] == "-":
-                return FPV(float("-inf"), self.sort)
-            return FPV(float("inf"), self.sort)
+            return FPV(_div_by_zero(o.value, self.value), self.sort)
 
     def __rfloordiv__(self, other):  # decline to involve integers in this floating point process
         return self.__rtruediv__(other)
